@@ -20,7 +20,11 @@ class C08(Prop):
     id = "C08"
     title = "object names, inventories and destruction stay consistent"
     lean_modules = ["NV.C08.Props"]
-    theorems = []
+    theorems = ["NV.C08.world_inv_preserved", "NV.C08.reachable_inv", "NV.C08.lookup_unique_live",
+                "NV.C08.lookup_unique_live_reachable", "NV.C08.inventories_forest", "NV.C08.destructed_never_visible",
+                "NV.C08.destructed_never_called", "NV.C08.destructed_never_moved_into",
+                "NV.C08.remove_hash_precondition", "NV.C08.remove_hash_absent_drops_chain", "NV.C08.unlink_preserves",
+                "NV.C08.superWalk_clear", "NV.C08.acyclic_redirect", "NV.C08.init_inv"]
     consts = [("oDestructed", "O_DESTRUCTED"), ("oEnableCommands", "O_ENABLE_COMMANDS"), ("oClone", "O_CLONE")]
     const_headers = ["lpc/object.h"]
     quick_n = 260
@@ -30,10 +34,32 @@ class C08(Prop):
     technique = ("Lean 4 proof (registry/inventory invariant preserved by every primitive and, by induction on fuel, by every "
                  "history with re-entrant hooks) + translator-generated hash table + model/implementation correspondence "
                  "with a walker over the real structures")
-    level_text = ""
-    level_note = ""
-    rule = ""
-    not_covered = []
+    level_text = ("Lean 4 theorems about an executable model of the object registries (otable.c hash chains with "
+                  "move-to-front, obj_list, obj_list_destruct, living-name hash, super/contains links) and of load_object, "
+                  "clone_object, move_object with its init() fan-out, destruct_object with its move_or_destruct loop and "
+                  "remove_destructed_objects: the invariant WorldInv (lookup = the unique live object of that name; x in "
+                  "contains(y) <-> super(x) = y; no duplicates; forest; destructed objects in no registry, no inventory, "
+                  "without environment) is preserved by every task for all hook oracles, all fuels, all histories; the model "
+                  "is tied to the source by the regenerated Pearson hash table / hash sizes and by running the real driver "
+                  "and the model on the same generated histories with a walker over the real structures after every step; "
+                  "the Lean specification oracle judges every implementation trace")
+    level_note = ("trusted: Lean kernel; extract.py + props/c08.py gen_extra (regex transcription of T[], ObjHash, "
+                  "hash_living_name); the correspondence harness (differential, only the generated histories); hooks are oracle "
+                  "scripts; the theorems do not include crash-freedom of the pointer walks (modelled as explicit outcomes, "
+                  "never observed) nor the oracle-level top theorem judge(model trace) = []")
+    rule = ("cases = corpus + known-finding inputs + boundary list (failing moves, self-destructing create, destruct during the "
+            "init fan-out, move_or_destruct hooks that move / destruct / re-enter, living names, reference read-back, a 220 "
+            "object population) + seeded random histories of load/clone/move/destruct/enable_commands/set_living_name/"
+            "find_object/find_living/error from top level and from create/init/move_or_destruct hook scripts, populations 2..8 "
+            "and (every 40th case) 100..260 objects on a 16 bucket name table; walker after every step, snapshot + LPC probe "
+            "after every step (small) or periodically (large); a case is non-trivial when its trace has >= 2 lines; "
+            "distinct = distinct canonical implementation trace")
+    not_covered = ["add_action / command() sentences and command_giver are not modelled (user_parser skips sentences of destructed objects: by reading only)",
+                   "virtual objects (master compile_object), the master / simul_efun reload path of destruct_object, shadows, swapping, sockets",
+                   "catch() inside hooks (error_handler resets restrict_destruct even for caught errors)",
+                   "objects(filter) with a filter that destructs objects walks next_all into obj_list_destruct (by reading; not generated)",
+                   "crash-freedom (no dereference of a released structure, termination of the super walk) is modelled but not proved",
+                   "call_out / heart_beat / input_to references to destructed objects (C10, C11)"]
 
     # ---- translator ---------------------------------------------------------
     def gen_extra(self, ctx, bdir):
